@@ -88,6 +88,8 @@ class G:
             mode = "entry"
         elif r < 0.2:
             mode = "cross"
+        if kind == "delete" and mode == "main" and self.p(0.35):
+            mode = "entry"  # delete() itself becomes one of the scheduled calls
         self.tail = []
         actors = getattr(self, "k_" + kind)(cls, mode)
         actors = [a for a in actors if a["calls"]]
@@ -102,7 +104,9 @@ class G:
         elif kind == "update":
             entry = {"t": "meth", "x": C, "m": "update", "a": [TA]}
         elif kind == "delete":
-            entry = {"t": "meth", "x": {"t": "meth", "x": C, "m": "from_", "a": [TA]}, "m": "delete"}
+            entry = {"t": "meth", "x": C, "m": "from_", "a": [TA]}
+            if not getattr(self, "delete_scheduled", False):
+                entry = {"t": "meth", "x": entry, "m": "delete"}
         elif kind == "setop":
             q1 = {"t": "meth", "x": {"t": "meth", "x": C, "m": "from_", "a": [TA]}, "m": "select", "a": [F(TA, "x", alias="k1"), F(TA, "y")]}
             q2 = {"t": "meth", "x": {"t": "meth", "x": C, "m": "from_", "a": [TB]}, "m": "select", "a": [F(TB, "x"), F(TB, "y")]}
@@ -128,7 +132,7 @@ class G:
                 else:
                     actors.insert(0, {"group": "entry", "calls": calls})
                 entry = {"t": "meth", "x": C, "m": "_builder"}
-            else:
+            elif not (kind == "delete" and self.delete_scheduled):
                 mode = "main"
         return {"cls": cls, "kind": kind, "mode": mode, "entry": entry, "actors": actors, "tail": self.tail}
 
@@ -329,6 +333,14 @@ class G:
 
     def k_delete(self, cls, mode):
         A = []
+        self.delete_scheduled = mode == "entry"
+        if self.delete_scheduled:
+            # delete() itself is one of the scheduled calls (it addresses the statement verb, not a clause of its own)
+            A.append({"group": "delete", "calls": [{"m": "delete", "a": []}]})
+            if cls not in ("SQLLiteQuery", "MySQLQuery") and self.p(0.5):
+                A.append({"group": "offset", "calls": [{"m": "offset", "a": [self.ch([2, 5])]}]})
+            if self.p(0.4) and cls not in ("MySQLQuery", "SQLLiteQuery"):
+                A.append({"group": "page", "calls": [{"m": "limit", "a": [self.ch([1, 5])]}]})
         if self.p(0.8):
             A.append({"group": "where", "calls": [{"m": "where", "a": [self.crit(TA)]} for _ in range(self.rng.randint(1, 2))]})
         if cls in ("MySQLQuery", "SQLLiteQuery") and self.p(0.4):
@@ -685,7 +697,7 @@ def expect_complete(prog, ms):
     if k == "update":
         return has_entry and ms["set"] > 0
     if k == "delete":
-        return True
+        return ms["delete"] > 0 or prog["entry"].get("m") == "delete"
     if k == "create":
         return ms["columns"] > 0
     return True  # drop, delete, set operations are complete from their entry point on
@@ -731,6 +743,13 @@ def riders(prog, merge, prefixes, L, stats):
             miss = check_order(names, table)
             if miss is not None:
                 bad.append(("clause-order", f"{miss} out of place or repeated in {' > '.join(names)}"))
+        # DISTINCT, when present, directly follows SELECT (before TOP (n), modifiers and the select list) in every dialect
+        for k, (name, first, after) in enumerate(cl):
+            if name == "SELECT":
+                words = [t[1].upper() for t in toks[after:after + 6] if t[0] == "word" and t[2] == 0]
+                if "DISTINCT" in words and words[0] != "DISTINCT":
+                    bad.append(("select-prefix", f"DISTINCT is not the first word after SELECT: {sql[:80]}"))
+                break
         # a clause keyword is followed by a body (the generator never asks for an empty clause)
         for k, (name, first, after) in enumerate(cl):
             if name in NEEDS_BODY:
